@@ -205,6 +205,7 @@ def run(tier, replay=None):
         ctx.broken.append("correspondence settings: %d differing observations, first at op %r (op %d of its history): field %s model %s / implementation %s" % (ndiff, h[k][:50], k, f, a, b))
         if not nfail:
             common.write_replay(PROP, "divergence", "# field %s: model %s, implementation %s\n%s\n" % (f, a, b, "\n".join(h[:k + 1])))
+    ctx.samples = [{"ops": [x[:120] for x in h[1:6]]} for h in hs[:3]]
     ctx.cov.update({"evaluations": len(ops), "histories": len(hs), "rejected_calls": rejected, "disagreements": ndiff, "monitor_failures": nfail, "input_distribution": dict(kinds),
                     "traces_validated_against_impl": len(mops) - ndiff, "distinct_nontrivial": len(set(re.sub(r"bank=\d+", "", r)[:400] for r in impl)), "exhaustive": False,
                     "rule": "random sequences of setters with boundary and out-of-range arguments, hooks, resets, emulator switches, valid and corrupted bank and music loads; clauses on the "
